@@ -588,6 +588,15 @@ func c01Families() []*c01Family {
 			},
 			cols: nil, pos: abacPos,
 			vocab: c01Vocab{strVars: []string{"r_act", "p_obj", "p_act"}, objVars: []string{"r_sub", "r_obj"}, strs: strs, fns: fns[:1], evalTok: "p_sub_rule"}},
+		// eval() sub-rules that call g() while the matcher itself does not mention g: the role
+		// functions have to be available to every expression evaluated for the request
+		&c01Family{name: "eval-rbac", rval: "sub, obj, act", pval: "sub_rule, obj, act", subRules: true, gs: []c01GDef{{"g", 2}},
+			base: func() *c01E {
+				return c01And(c01Call("eval", c01V_("p_sub_rule")), c01Eq(c01V_("r_obj"), c01V_("p_obj")), c01Eq(c01V_("r_act"), c01V_("p_act")))
+			},
+			cols: nil, pos: spos(c01Subs, c01Objs, c01Acts),
+			gcols: map[string][][]string{"g": {c01RoleNames, c01RoleNames}},
+			vocab: c01Vocab{strVars: []string{"r_sub", "r_obj", "r_act", "p_obj", "p_act"}, strs: strs, fns: fns[:1], evalTok: "p_sub_rule"}},
 	)
 	return fams
 }
@@ -616,6 +625,19 @@ func c01SubRules(r *rand.Rand, vc *c01Vocab, n int) (texts []string, ents []c01P
 			add("", "", nil)
 		case 4:
 			add("r.sub.Age", "r_sub.Age", c01Acc("r_sub", "Age")) // a number: matched when non-zero
+		case 6, 7, 8:
+			if len(vc.gs) > 0 { // a sub-rule that calls a role function
+				ast := c01Bin("||", vc.genG(r, 1), c01Eq(c01V_("r_sub"), c01Str(c01Pick(r, c01Subs))))
+				if r.Intn(2) == 0 {
+					ast = vc.genG(r, 1)
+				}
+				st := c01Style{dot: r.Intn(4) > 0, full: r.Intn(3) == 0, sq: r.Intn(2) == 0}
+				add(c01Print(ast, st), c01Print(ast, c01UnderscoreStyle(st)), ast)
+				continue
+			}
+			ast := vc.genBool(r, 1+r.Intn(2))
+			st := c01Style{dot: r.Intn(4) > 0, full: r.Intn(3) == 0, sq: r.Intn(2) == 0}
+			add(c01Print(ast, st), c01Print(ast, c01UnderscoreStyle(st)), ast)
 		case 5:
 			add("r.sub.Name", "r_sub.Name", c01Acc("r_sub", "Name")) // a string: result type error
 		default:
@@ -900,6 +922,18 @@ func c01Specials(c *Ctx, byName map[string]*c01Family, next func(string) string)
 		}
 		c01RunMode(c, cs)
 
+		// eval() sub-rules that call g() while the matcher does not: a fixed case (the random ones
+		// are in the eval-rbac family)
+		if er := byName["eval-rbac"]; er != nil {
+			cs = c01Build(r, next("eval-g"), er, nil, c01Pick(r, []string{"ao", "do", "ad"}), 0, 0)
+			gAdmin := c01Call("g", c01V_("r_sub"), c01Str("admin"))
+			gRoot := c01Bin("&&", c01Call("g", c01V_("r_sub"), c01Str("root")), c01Bin("!=", c01V_("r_sub"), c01Str("bob")))
+			cs.p[0].rules = [][]string{{"g(r.sub, \"admin\")", "data1", "read"}, {"g(r.sub, \"root\") && r.sub != \"bob\"", "data2", "read"}}
+			cs.extra = []c01ParseEnt{{"g(r_sub, \"admin\")", gAdmin}, {"g(r_sub, \"root\") && r_sub != \"bob\"", gRoot}}
+			cs.g = []c01GRules{{"g", 2, [][]string{{"alice", "admin"}, {"admin", "root"}, {"bob", "root"}}}}
+			cs.reqs = c01AllReqs(r, nil, [][]c01V{c01StrVals("alice", "bob", "admin", "carol"), c01StrVals("data1", "data2"), c01StrVals("read")}, false)
+			c01RunMode(c, cs)
+		}
 		// unknown function: a compile error for every request
 		cs = c01Build(r, next("unknown-fn"), acl, c01And(c01Call("foo", c01V_("r_sub")), c01Eq(c01V_("r_obj"), c01V_("p_obj"))), "ao", 2, 0)
 		c01RunMode(c, cs)
